@@ -182,10 +182,12 @@ pub fn gen_setup_band(r: &mut Rng, profile: Profile, max_k: u32, band: Option<u3
             Oti { f, t, z: z as u8, n, al }
         }
     };
-    let data = match r.below(10) {
+    let data = match r.below(12) {
         0 => DataSpec::Zero,
         1 => DataSpec::Ff,
         2 => DataSpec::Count,
+        3 => DataSpec::Sparse { seed: r.next_u64() },
+        4 => DataSpec::Repeat { seed: r.next_u64() },
         _ => DataSpec::Seeded { seed: r.next_u64() },
     };
     // ---- sender replicas
